@@ -34,6 +34,19 @@ Theorem C31_oversize_rejected_before_alloc : forall limit hdr rest,
 Proof. exact oversize_rejected. Qed.
 Print Assumptions C31_oversize_rejected_before_alloc.
 
+(* The decision of receive depends on sizes only: limit, version byte, announced
+   size, bytes available behind the header. *)
+Theorem C31_receive_by_sizes : forall limit v x n body, 0 <= n < 4294967296 ->
+  rmap (fun r => len (snd r)) (rv_result (receive limit ([v; x] ++ be_bytes 4 n ++ body))) =
+  receive_decision limit v n (len body).
+Proof. exact receive_decision_spec. Qed.
+Print Assumptions C31_receive_by_sizes.
+
+(* Receive applies the limit Send applies: every size Send accepts comes back whole. *)
+Theorem C31_send_receive_agree : forall n, send_accepts n = true -> send_receive_size n = Ok n.
+Proof. exact send_receive_agree. Qed.
+Print Assumptions C31_send_receive_agree.
+
 (* bundle message length = 1 + 1 + sum (4 + signed size) *)
 Theorem C31_size_formula : forall txs typ m, build_transactions txs typ = Ok m ->
   len m = txs_msg_len (map len txs).
